@@ -99,7 +99,9 @@ func VrfC13Ingest() {
 	limit := vrf_nondet_uint64("shard_size_limit")
 	cl := &vrfCluster{pinFails: vrf_choice("failing_pin_call", 4)}
 	ipfs := &vrfIPFS{}
-	opts := api.PinOptions{ShardSize: limit, ReplicationFactorMin: 1, ReplicationFactorMax: 2, Name: "n"}
+	// replication: explicit factors, unset (0/0 = cluster defaults) or everywhere (-1)
+	rf := [][2]int{{1, 2}, {0, 0}, {-1, -1}}[vrf_choice("replication", 3)]
+	opts := api.PinOptions{ShardSize: limit, ReplicationFactorMin: rf[0], ReplicationFactorMax: rf[1], Name: "n"}
 	dgs := New(vrfClient(cl, ipfs), opts, nil)
 	ctx := context.Background()
 	sizes := make([]int, k)
@@ -129,7 +131,12 @@ func VrfC13Ingest() {
 			shardPins++
 			vrf_assert(p.ShardSize < limit, "C13.flush.under-limit")
 			vrf_assert(p.MaxDepth >= 1, "C13.flush.depth")
-			vrf_assert(len(p.Allocations) == 1, "C13.flush.allocations")
+			// the shard is pinned where its blocks were sent (no list when pinned everywhere)
+			if rf[0] < 0 {
+				vrf_assert(len(p.Allocations) == 0, "C13.flush.allocations")
+			} else {
+				vrf_assert(len(p.Allocations) == 1, "C13.flush.allocations")
+			}
 			vrf_assert(p.Reference != nil, "C13.flush.reference")
 		}
 	}
